@@ -57,7 +57,15 @@ PLANS["C16"] = dict(stages=[dict(bin="world", world="cluster", prop="C16", share
     rule="each evaluation is one seeded run of the cluster world: one real nsqd configured with 1-3 real nsqlookupd (and, in half of the runs, a hostile stub lookupd answering negative/oversized length prefixes, garbage, truncated frames, stalls); topic/channel churn and publishes on the nsqd interleaved with lookupd faults (refuse, blackhole, accept-then-close, connection resets, restart with empty state), runtime reconfiguration of the lookupd list and clock advances over several 15 s heartbeats; oracles: nsqd stays up and answers within the documented blocking-lookup bound, a topic's first message reaches every channel all lookupds already knew, and 55 simulated seconds after the last fault every configured real lookupd's /debug lists this nsqd for exactly its current topics and channels; distinct = distinct schedule fingerprint; non-trivial = at least one fault fired",
     components=dict(real=REAL_Q + REAL_L + ["internal/clusterinfo (lookupd channel query)"], stub=STUB_Q + ["hostile stub lookupd (listener in the harness)"]), assumptions=ASSUME, crash_property="C16")
 
-WORLD_BIN = {"queue": "world", "lookupd": "world", "proto": "world", "meta": "world", "cluster": "world"}
+REAL_A = ["nsqadmin (New/Main/Exit): HTTP API, ACL and CIDR gates", "internal/clusterinfo (fan-out, aggregation, partial errors)", "internal/http_api client", "net/http"]
+def ad(prop, rule):
+    return dict(stages=[dict(bin="world", world="admin", prop=prop, share=1.0)], quick_s=30, thorough_s=600, level="exploration", rule=rule,
+                components=dict(real=REAL_A, stub=STUB_Q + ["stub nsqd and nsqlookupd upstreams (HTTP handlers in the harness that serve generated cluster data, record every request and fail in generated ways)"]),
+                assumptions=ASSUME, crash_property="C18")
+PLANS["C17"] = ad("C17", "each evaluation is one seeded run of the admin world: real nsqadmin with a drawn admin list / ACL header / config CIDR in front of recording stub upstreams; every mutating route with every identity variant (absent, empty, non-admin, admin, case/whitespace/prefix look-alikes, right user in the wrong header, list of users) and /config from source addresses inside/outside/at the edge of the CIDR (v4 and v6); oracles: not authorised => 403 and ZERO upstream requests in that step, authorised => carried out on every relevant lookupd and producer (stub request log), read views available; distinct = distinct schedule fingerprint")
+PLANS["C18"] = ad("C18", "each evaluation is one seeded run of the admin world: 0-3 stub lookupds and 1-4 stub nsqds with generated topics/channels/clients/counters (zero, huge, optional fields missing, nodes unknown to some lookupds, tombstones), lookupd and direct mode; any subset of upstreams failing by refuse / blackhole / reset mid-body / HTTP 500 / malformed JSON / inconsistent arrays / empty body; oracle: /api/topics, /api/topics/:t, /api/topics/:t/:c, /api/nodes, /api/counter equal a reference union/sum over the healthy upstreams, partial failure => 200 with a warning, total failure => 502, nsqadmin answers /ping after every step; distinct = distinct schedule fingerprint")
+
+WORLD_BIN = {"queue": "world", "lookupd": "world", "proto": "world", "meta": "world", "cluster": "world", "admin": "world"}
 SELFTEST_WORLDS = [("queue", "ALL"), ("queue", "C08"), ("queue", "C05"), ("lookupd", "C14"), ("lookupd", "C15")]
 ALL_TARGETS = ["world"]
 
@@ -89,9 +97,12 @@ MANIFEST_TEXT["C06"] = mt("fault enumeration: every simos hook boundary of every
 
 MANIFEST_TEXT["C16"] = mt("seeded search over interleavings of nsqd topic/channel churn with lookupd fault sequences (network faults from simnet, restarts, a hostile stub) against real nsqd and nsqlookupd; oracles: liveness of nsqd (crash attribution, answer latency bound), channel pre-creation on first publish, bounded-time convergence of every lookupd's registrations to nsqd's registry once faults stop.", "DESIGN.md 3 C16", "deterministic simulation: fault injection on the lookupd links + convergence oracle")
 
+MANIFEST_TEXT["C17"] = mt("seeded search over route x identity x admin-list x header-name x source-address configurations against the real nsqadmin in front of recording stub upstreams; oracle: 403 and zero upstream requests for every unauthorised mutation, fan-out to every relevant upstream for authorised ones, CIDR gate on /config. Input- and configuration-driven; the simulator contributes source addresses, the per-step upstream request log and determinism.", "DESIGN.md 3 C17", "deterministic simulation: authorisation matrix with upstream request log")
+MANIFEST_TEXT["C18"] = mt("seeded search over generated cluster contents and upstream fault subsets against the real nsqadmin/clusterinfo; oracle: reference union/sum aggregation computed from the stub data, warning/502 mapping, liveness after every request.", "DESIGN.md 3 C18", "deterministic simulation: reference aggregation under upstream faults")
+
 NOT_APPLICABLE = {
  "C11": "not yet built in this session",
 
- "C17": "not yet built in this session", "C18": "not yet built in this session", "C19": "not yet built in this session",
+ "C19": "not yet built in this session",
  "C20": "not yet built in this session",
 }
